@@ -26,7 +26,11 @@ def main(c):
         secret = "".join(rnd.choice("abcdefghijklmnopqrstuvwxyzABCDEFGHIJKLMNOPQRSTUVWXYZ0123456789+/") for _ in range(rnd.choice([9, 12, 15, 17, 23, 40, 41, 47, 64])))
         parts = rnd.choice([["ACCESS_KEY_SECRET=" + secret], ["ACCESS_KEY_SECRET=" + secret, "ACCESS_KEY_ID"], ["ACCESS_KEY_SECRET=" + secret, "FOO=bar"],
                             ["ACCESS_KEY_SECRET=" + secret, "ACCESS_KEY_SECRET=" + secret[::-1]], ["ACCESS_KEY_ID=AKIA", "ACCESS_KEY_SECRET=" + secret, "junk"],
-                            ["ACCESS_KEY_ID=AKIA", "ACCESS_KEY_SECRET=" + secret], ["ACCESS_KEY_SECRET=" + secret, "ACCESS_KEY_ID=AKIA", "ACCESS_KEY_ID=again"]])
+                            ["ACCESS_KEY_ID=AKIA", "ACCESS_KEY_SECRET=" + secret], ["ACCESS_KEY_SECRET=" + secret, "ACCESS_KEY_ID=AKIA", "ACCESS_KEY_ID=again"],
+                            # a much longer line after the secret (a line buffer that grows is released with the secret line in it)
+                            ["ACCESS_KEY_SECRET=" + secret, "ACCESS_KEY_ID=" + "A" * rnd.choice([130, 300, 900]), "junk"],
+                            ["ACCESS_KEY_SECRET=" + secret, "FOO=" + "x" * rnd.choice([200, 1000])],
+                            ["ACCESS_KEY_ID=AKIA", "ACCESS_KEY_SECRET=" + secret, "ACCESS_KEY_SECRET=" + secret[::-1] + "Z"]])
         content = "\n".join(parts) + rnd.choice(["\n", "", "\r\n"])
         lines.append("keyfile " + content.encode().hex())
     c.cov["calls_per_build"] = len(lines)
